@@ -51,7 +51,7 @@ pub struct Program {
     pub k: u8,
     pub ops: Vec<Op>,
     /// how the k logical variables are spread over the library's variable indices
-    /// (0 = 0..k; others leave gaps and cross the 64 / 128 boundaries)
+    /// (0 = 0..k; others leave gaps and cross the 64 / 128 / 2^16 / 2^32 boundaries)
     #[serde(default)]
     pub spread: u8,
 }
@@ -59,11 +59,14 @@ pub struct Program {
 /// library variable index of logical variable i (strictly increasing in i)
 pub fn varmap(k: usize, spread: u8) -> Vec<usize> {
     (0..k)
-        .map(|i| match spread % 5 {
+        .map(|i| match spread % 7 {
             0 => i,
             1 => [0usize, 1, 63, 64, 65, 127, 128, 200, 201, 300][i.min(9)] + i.saturating_sub(9) * 7,
             2 => i * 33,
             3 => 60 + i * 2,
+            // indices around the 16 / 32 bit boundaries and far beyond (a variable is a machine word)
+            5 => [65534usize, 65535, 65536, 65537, (1 << 32) - 2, (1 << 32) - 1, 1 << 32, (1 << 32) + 1, 1 << 40, 1 << 48][i.min(9)] + i.saturating_sub(9) * 5,
+            6 => [3usize, 255, 256, 1 << 20, (1 << 31) + 1, 1 << 33, (1 << 33) + 64, 1 << 52, (1 << 53) + 1, 1 << 62][i.min(9)] + i.saturating_sub(9) * 3,
             _ => [5usize, 70, 71, 135, 136, 137, 260, 261, 262, 263][i.min(9)] + i.saturating_sub(9) * 3,
         })
         .collect()
@@ -104,7 +107,7 @@ pub fn program(kmax: u8, maxops: usize, rematerialise: bool) -> BoxedStrategy<Pr
     (
         1..=kmax,
         proptest::collection::vec(op_strategy(rematerialise), 1..=maxops),
-        prop_oneof![4 => Just(0u8), 1 => 1u8..5],
+        prop_oneof![4 => Just(0u8), 1 => 1u8..7],
     )
         .prop_map(|(k, ops, spread)| Program { k, ops, spread })
         .boxed()
@@ -116,7 +119,7 @@ pub fn program_partial_import(kmax: u8, maxops: usize) -> BoxedStrategy<Program>
         12 => op_strategy(true),
         1 => any::<u16>().prop_map(Op::SerdePartialCache),
     ];
-    (1..=kmax, proptest::collection::vec(op, 2..=maxops), prop_oneof![4 => Just(0u8), 1 => 1u8..5])
+    (1..=kmax, proptest::collection::vec(op, 2..=maxops), prop_oneof![4 => Just(0u8), 1 => 1u8..7])
         .prop_map(|(k, ops, spread)| Program { k, ops, spread })
         .boxed()
 }
